@@ -1,5 +1,6 @@
 //! Channels of the line protocol (DESIGN Appendix B).
 pub mod dec;
+pub mod load;
 pub mod parse;
 pub mod store;
 pub mod trav;
@@ -16,6 +17,8 @@ pub fn respond(line: &str) -> String {
         "dec" => dec::dec(rest),
         "parse" => parse::parse(rest),
         "asm" => parse::asm(rest),
+        "load" => load::load(rest),
+        "loadbin" => load::loadbin(rest),
         _ => "bad-request".to_string(),
     }
 }
